@@ -62,7 +62,7 @@ VARIANTS += [
          edits=[dict(file=HQ, find="                StatusCode::UNAUTHORIZED,\n                \"This API requires", replace="                StatusCode::FORBIDDEN,\n                \"This API requires")]),
     dict(prop="C20", name="auth-inverted", expect="GUARD-auth|inner-call",
          edits=[dict(file=HQ, find="            Some(ClientIdentity(_)) => self.inner.call(req).left_future(),\n            None => ready(Ok((", replace="            None => self.inner.call(req).left_future(),\n            Some(ClientIdentity(_)) => ready(Ok((")]),
-    dict(prop="C20", name="header-layer-under-tls", expect="ARM-tls|header-layer",
+    dict(prop="C20", name="header-layer-under-tls", expect="ARM-tls|serve",
          edits=[dict(file=NS, find="                    handle.clone(),\n                    svc.into_make_service(),\n                )\n                .await\n            }\n            (false, None) => {", replace="                    handle.clone(),\n                    svc.layer(layer_fn(SetClientIdentityFromHeader::<_, F>::new)).into_make_service(),\n                )\n                .await\n            }\n            (false, None) => {")]),
     dict(prop="C20", name="identity-fabricated-in-handler", expect="WHO-identity",
          edits=[dict(file=NS, find="    fn call(&mut self, mut req: Request<B>) -> Self::Future {\n        if let Some(id) = self.id {\n            req.extensions_mut().insert(id);\n        }", replace="    fn call(&mut self, mut req: Request<B>) -> Self::Future {\n        if let Some(id) = self.id {\n            req.extensions_mut().insert(id);\n        } else if let Some(h) = req.headers().get(F::identity_header()) {\n            if let Ok(id) = ClientIdentity::<F::Identity>::try_from(h) {\n                req.extensions_mut().insert(id);\n            }\n        }")]),
